@@ -382,7 +382,9 @@ def podstrStep (n : Nat) (s : ByteArray) (op : String) (args : List Int) : Optio
   | _, _ => none
 
 def podIsSome (kind : Nat) (inner : ByteArray) : Bool :=
-  if kind == 8 then inner.toList != List.replicate 8 255 else inner.toList.any (· != 0)
+  if kind == 8 then inner.toList != List.replicate 8 255
+  else if kind == 2 then inner.toList.headD 0 == 1
+  else inner.toList.any (· != 0)
 
 def podStep (kind n : Nat) (s : ByteArray) (op : String) (args : List Int) : Option (ByteArray × String) :=
   let boolStr := fun (b : Bool) => if b then "true" else "false"
